@@ -141,9 +141,9 @@ func checkC11(c *Ctx) {
 	r := c.Rep
 	p := c.Prog
 	r.Explain = "Structural clauses of the compound-packet rules, decided by evaluating Validate / CNAME / Marshal / Unmarshal of CompoundPacket with the constant-propagation evaluator for every dynamic type of the first member and of the later members and every SDES item type code 0..8 (lengths and all other data Unknown, both branch outcomes followed), plus def-use checks on the SSA. Grammar equivalence for all sequences is NOT decided."
-	r.RuleText = "C11-FIRST: Validate rejects (errBadFirstPacket) exactly the first-member types other than *SenderReport/*ReceiverReport. C11-SCAN: for later members: *ReceiverReport continues, *SourceDescription ends the scan (nil only if an item type equals SDESCNAME=1, else errMissingCNAME), any other type returns errPacketBeforeCNAME; falling off the end returns errMissingCNAME; the scan loop carries no state between members. C11-GATE: Marshal returns bytes only after Validate returned nil; Unmarshal returns nil only as the result of Validate on the stored list. C11-CNAME: CNAME() returns the Text of the item whose Type compared equal to SDESCNAME, returned from inside the scan (first match)."
+	r.RuleText = "C11-FIRST: Validate rejects (errBadFirstPacket) exactly the first-member types other than *SenderReport/*ReceiverReport. C11-SCAN: for later members: *ReceiverReport continues, *SourceDescription ends the scan (nil only if an item type equals SDESCNAME=1, else errMissingCNAME), any other type returns errPacketBeforeCNAME; falling off the end returns errMissingCNAME; the scan loop carries no state between members. C11-GATE: Marshal returns bytes only after Validate returned nil; Unmarshal returns nil only as the result of Validate on the stored list. C11-CNAME: CNAME() returns the Text of the item whose Type compared equal to SDESCNAME, returned from inside the scan (first match); an error returned together with the text can only stem from a member that is neither *SourceDescription nor *ReceiverReport, at which Validate fails."
 	r.Trusted = []string{"go/ssa", "checker/pe evaluator", "type names of the 16 Packet implementations"}
-	r.NotCov("sequences whose acceptance depends on interactions between members beyond the per-member decision (the scan loop is checked to carry no state, which excludes them for Validate but CNAME()'s err variable is loop-carried and not decided)")
+		r.NotCov("sequences whose acceptance depends on interactions between members beyond the per-member decision (the scan loop of Validate is checked to carry no state; the one variable CNAME() carries, its error, is decided by CNAME/error-only-after-a-foreign-member)")
 	r.NotCov("DestinationSSRC (C10) and MarshalSize (C05) aggregation clauses are decided by those properties' checks")
 
 	val := p.Func("CompoundPacket.Validate")
@@ -355,7 +355,88 @@ func checkC11(c *Ctx) {
 		ok, det := cnameFirstMatch(cname)
 		r.Check(ok, "C11-CNAME", "CNAME/first-match", p.Pos(cname.Pos()), "the Text is returned directly from the item whose Type was just compared, inside the scan loops (first match wins)", det)
 	}
+	{
+		ok, det := cnameErrOnlyForForeign(cname)
+		r.Check(ok, "C11-CNAME", "CNAME/error-only-after-a-foreign-member", p.Pos(cname.Pos()), det, det)
+	}
 	_ = core.PacketTypes
+}
+
+// cnameErrOnlyForForeign: an error that CNAME() carries in a variable and returns together with the text
+// can only have been assigned at a member that is neither *SourceDescription nor *ReceiverReport — the
+// members at which Validate's scan returns errPacketBeforeCNAME (C11-SCAN). So whenever Validate succeeds
+// no such member precedes the first CNAME item and the returned error is nil. Def-use rule: every non-nil
+// source that reaches the error operand of a return whose first result is not the constant "" (through
+// phis) is evaluated in a block dominated by the failed outcome of both type assertions.
+func cnameErrOnlyForForeign(fn *ssa.Function) (bool, string) {
+	nsrc := 0
+	var bad []string
+	for _, b := range fn.Blocks {
+		ret, ok := b.Instrs[len(b.Instrs)-1].(*ssa.Return)
+		if !ok || len(ret.Results) != 2 {
+			continue
+		}
+		if cst, isC := ret.Results[0].(*ssa.Const); isC && cst.Value != nil && cst.Value.Kind() == constant.String && constant.StringVal(cst.Value) == "" {
+			continue // a failure return: its error is not constrained by the property
+		}
+		seen := map[ssa.Value]bool{}
+		var walk func(v ssa.Value)
+		walk = func(v ssa.Value) {
+			if seen[v] {
+				return
+			}
+			seen[v] = true
+			switch x := v.(type) {
+			case *ssa.Const:
+				if x.Value != nil {
+					bad = append(bad, "a non-nil constant error")
+				}
+			case *ssa.Phi:
+				for _, e := range x.Edges {
+					walk(e)
+				}
+			case *ssa.Extract:
+				// the error result of a helper (first-match helper form): looked at separately by first-match
+				if call, isCall := x.Tuple.(*ssa.Call); isCall && call.Common().StaticCallee() != nil {
+					for _, hb := range call.Common().StaticCallee().Blocks {
+						if hr, ok := hb.Instrs[len(hb.Instrs)-1].(*ssa.Return); ok && x.Index < len(hr.Results) {
+							if c, isC := hr.Results[x.Index].(*ssa.Const); !isC || c.Value != nil {
+								bad = append(bad, "an error produced by "+call.Common().StaticCallee().Name())
+							}
+						}
+					}
+					return
+				}
+				bad = append(bad, "an error of unknown origin: "+x.String())
+			default:
+				in, isInstr := v.(ssa.Instruction)
+				if !isInstr {
+					bad = append(bad, "an error of unknown origin: "+v.String())
+					return
+				}
+				nsrc++
+				failed := map[string]bool{}
+				for _, cd := range dominatingConds(in.Block()) {
+					ex, ok := cd.v.(*ssa.Extract)
+					if !ok || ex.Index != 1 || cd.outcome {
+						continue
+					}
+					if ta, ok := ex.Tuple.(*ssa.TypeAssert); ok && ta.CommaOk {
+						failed[namedOf(ta.AssertedType)] = true
+					}
+				}
+				if !failed["SourceDescription"] || !failed["ReceiverReport"] {
+					bad = append(bad, fmt.Sprintf("%s is assigned where the member is not known to be neither *SourceDescription nor *ReceiverReport", v.String()))
+				}
+			}
+		}
+		walk(ret.Results[1])
+	}
+	if len(bad) > 0 {
+		sort.Strings(bad)
+		return false, "CNAME() can return the text together with " + trunc(bad, 2)
+	}
+	return true, fmt.Sprintf("the error returned with the text is nil or one of %d value(s) assigned only at a member that is neither *SourceDescription nor *ReceiverReport (where Validate fails)", nsrc)
 }
 
 // loopDepth: number of natural-loop headers that dominate b and can be reached back from b.
